@@ -7,6 +7,8 @@ from . import common
 LEVEL_TEXT = {
     "C04": ("model_checking", "Graph reader vs. CGGraph.tla: TLC enumerates every string of the bounded grammar (the enabling conditions are the grammar), model-checks the denotation's design invariants, and every enumerated / simulated / repository string is read by the real read_cgsmiles and validated by TLC (exact equality of numbering, names, annotation values, edges and orders with CGGraph!Denote).", "4.1, 5 C04"),
     "C05": ("model_checking", "Multiplier shorthand vs. CGGraph!Expand: TLC enumerates every bounded string with multipliers and computes the longhand; the real reader reads both; TLC checks the isomorphism witness (exact numbering for node multipliers).", "4.1, 5 C05"),
+    "C13": ("model_checking", "Fragment tokenizer vs. FragText.tla: TLC enumerates every bounded fragment token string (descriptors of every kind/label/order at every allowed position, annotations, branches, ring digits, two-letter elements; atomistic and coarse), model-checks that inserting descriptors is inert for text and graph, and TLC compares strip_bonding_descriptors' cleaned text, descriptor lists and annotations with FragText!Strip exactly.", "4.2, 5 C13"),
+    "C14": ("model_checking", "Annotation binding vs. Annot.tla: TLC enumerates every bounded entry sequence, model-checks positional=keyword, keyword-order irrelevance, defaults, numeric canonicity and verbatim free keys, and validates the attributes that arrive in the returned graphs at three sites (base node, coarse-fragment node, atom; reuse 1-3) against Annot!Bind.", "4.3, 5 C14"),
     "C20": ("model_checking", "Fault mode of CGGraphMC / ResolveMC: every bounded string ending in one of the listed faults and single-fault injections into long simulated strings; the expected error is computed by the specification (CGGraph!Fault, Annot!BindError, Resolve!MissingFragment) and compared by TLC with the observed outcome.", "5 C20"),
 }
 
